@@ -144,7 +144,7 @@ def main():
             na.append({"property_id": i, "reason": NOT_APPLICABLE.get(i, "check not built yet in this session (solver-based harness pending); not claimed")})
     m = {
         "version": 1,
-        "setup_cmd": "cd /verif/engine && GOFLAGS=-mod=mod GOPROXY=off go build -o gosmt .",
+        "setup_cmd": "cd /verif/engine && GOFLAGS=-mod=mod GOPROXY=off go build -o gosmt . && cd /verif && ./check selftest quick",
         "hooks": {
             "guard": "verif",
             "enable": "no hooks in /repo: harnesses (/verif/harness/<pkg>/zz_verif_*.go, build tag `verif || verifreplay`) and the intrinsics package zzverif are injected by go/packages Overlay (symbolic run) and `go test -overlay` (native replay)",
